@@ -191,4 +191,13 @@ PROPS = {
         level_text="C18_fault_car, C18_fault_cbor, ldRead_prefix, C18_truncation_car (for every prefix of every written CAR). Streaming = buffered holds by construction in the model (one function of the byte source). Go: every (every 3rd, quick) truncation offset and read-fault offset of written containers in 4 formats through 3 reader variants; every write call failing for all 8 writers; FromSealedReader/ToSealedWriter of single tokens cut/failing at every offset/call, CIDs compared with the buffered calls. Partial: truncation of the CBOR container and of single tokens (always an error) is covered by the stream only — the prefix-freeness lemma for the lenient decoder on truncated input is not proved yet.",
         level_note=_CTN_NOTE,
     ),
+    "C19": dict(
+        props_module="Ucan.Props.C19",
+        streams=["meta"],
+        level="proof",
+        technique="Lean 4 proofs about the wrapper around secretbox with seal/open as parameters: key validation iff, layout (nonce ‖ box, +40 bytes), round trip under the open∘seal contract, refusals surface as errors, distinct nonces give distinct stored values; tied by a differential run incl. every single-bit modification of stored ciphertexts with x/crypto's own verdict as oracle (PARTIAL: confidentiality and authenticity are cryptographic assumptions, tested, not proved)",
+        level_text="PARTIAL. Proved for all inputs: C19_validateKey_iff (missing, wrongly sized and all-zero keys are refused, and only those) and that both directions refuse them; C19_layout; C19_roundtrip (given open k n (seal k n m) = some m); C19_refusal_is_error and C19_short_ciphertext (whatever secretbox refuses — wrong key, any modified ciphertext or nonce — is an error, never data); C19_distinct_nonce_distinct_value; C19_only_strings_and_bytes. Not proved, named: that XSalsa20-Poly1305 hides the plaintext and rejects modifications, and that crypto/rand nonces do not repeat. Go: 26 key shapes; 6 plaintexts × right/wrong/nil/zero/short keys × every single-bit modification, truncation and extension of the stored value; round trips in memory and through sealed delegations and invocations (CBOR, JSON); plaintext-substring search in stored values and sealed tokens; repeated encryption distinctness; stored length.",
+        level_note="Trusted: Lean kernel; Model/Meta.lean renders meta.go/secretbox.go by hand (checked differentially); x/crypto/nacl/secretbox and crypto/rand are dependencies: secretbox.Open's verdict is computed by the harness and given to the model as an oracle. The bit-flip sweep is a TEST of the wrapper wiring, not a proof of authenticity.",
+        assumptions=["INT-CTXT and IND-CPA of XSalsa20-Poly1305; unpredictability/non-repetition of crypto/rand nonces"],
+    ),
 }
